@@ -160,9 +160,9 @@ Theorem garbage_eventually limit : (0 < limit)%nat -> forall k s,
 Proof.
   intros L. induction k as [|k IH]; intros s I Hk.
   - destruct (pass_progress limit s I L) as (I1 & L1 & [Hlt|Hg]); [lia|].
-    exists 1%nat. simpl. repeat split; auto.
+    exists 1%nat. simpl. split; [lia|]. split; [exact I1|]. split; [exact Hg|exact L1].
   - destruct (pass_progress limit s I L) as (I1 & L1 & [Hlt|Hg]).
     + destruct (IH (gc_pass limit s) I1) as (n & Hn & I2 & G2 & L2); [lia|].
-      exists (S n). simpl. repeat split; auto; lia.
-    + exists 1%nat. simpl. repeat split; auto. lia.
+      exists (S n). simpl. split; [lia|]. split; [exact I2|]. split; [exact G2|lia].
+    + exists 1%nat. simpl. split; [lia|]. split; [exact I1|]. split; [exact Hg|exact L1].
 Qed.
